@@ -586,14 +586,24 @@ func dominatedByNilBranch(v ssa.Value, b *ssa.BasicBlock) bool {
 // yields err and "".
 func seeThroughHelper(v ssa.Value) ssa.Value {
 	for depth := 0; depth < 4; depth++ {
-		ex, ok := v.(*ssa.Extract)
-		if !ok {
+		var call *ssa.Call
+		idx := 0
+		switch x := v.(type) {
+		case *ssa.Extract:
+			c, ok := x.Tuple.(*ssa.Call)
+			if !ok {
+				return v
+			}
+			call, idx = c, x.Index
+		case *ssa.Call:
+			if x.Call.Signature().Results().Len() != 1 {
+				return v
+			}
+			call = x
+		default:
 			return v
 		}
-		call, ok := ex.Tuple.(*ssa.Call)
-		if !ok {
-			return v
-		}
+		ex := struct{ Index int }{idx}
 		h := call.Call.StaticCallee()
 		if h == nil || !IsModuleFunc(h) || h.Blocks == nil {
 			return v
